@@ -1,5 +1,6 @@
 import ScnrVerif.Proofs.World
 import ScnrVerif.Proofs.CacheKey
+import ScnrVerif.Props.C16
 /-!
 # C13 — the scanner cache is transparent
 
@@ -76,6 +77,20 @@ theorem structural_cache_refines_id_cache (num : CfgKey → CfgId) (inj : ∀ a 
     cacheGet compile (absCache num cache) (num k) =
       (absCache num (cacheGetK compileK cache k).1, (cacheGetK compileK cache k).2) :=
   cacheGetK_refines num inj compileK compile hc cache k
+
+/-- The tie reads the keys from the serde trees of the real mode lists: for configurations whose
+    numbers fit `usize` the tree determines the key and the key the tree. -/
+theorem key_is_read_from_the_tree (a b : List ModeC) (ha : ∀ m ∈ a, m.inRange = true)
+    (hb : ∀ m ∈ b, m.inRange = true) : keyEq a b = true ↔ toJsonModes a = toJsonModes b := by
+  rw [keyEq_iff]
+  constructor
+  · intro h; rw [h]
+  · intro h
+    have h1 := C16.modes_roundtrip a ha
+    have h2 := C16.modes_roundtrip b hb
+    rw [h] at h1
+    rw [h1] at h2
+    exact Option.some.inj h2
 
 /-! Non-vacuity: one-field differences are different keys; equal configurations are equal keys. -/
 def exMode : ModeC := ⟨[73], [⟨[97], 1, some ⟨true, [98]⟩⟩, ⟨[97, 98], 2, none⟩], [(1, 0)]⟩
